@@ -110,6 +110,7 @@ var c16Palette = func() [64]color.RGBA {
 	p[1] = color.RGBA{0x80, 0x80, 0x80, 0x80} // translucent and one-byte encodable, below entries that need three bytes
 	p[3] = c16FlatOpaque
 	p[7] = color.RGBA{0x80, 0x40, 0x20, 0xff}
+	p[8] = p[7]
 	return p
 }()
 
@@ -173,7 +174,7 @@ func c16Fill(d ivg.Destination, fill int, indirect bool, s float32) {
 			d.SetCSel(11)
 			d.SetCReg(0, true, ivg.CRegColor(20))
 			d.SetNReg(0, true, 0.5)
-			d.SetCReg(0, true, ivg.BlendColor(0xff, 0x00, 0x87))
+			d.SetCReg(0, true, ivg.BlendColor(0xff, 0x00, 0x88)) // = palette[8]; T, C0 and C1 all multiples of 0x11
 			d.SetNReg(0, true, 1)
 		} else {
 			d.SetCReg(0, true, ivg.RGBAColor(c16FlatOpaque))
@@ -183,7 +184,7 @@ func c16Fill(d ivg.Destination, fill int, indirect bool, s float32) {
 			d.SetCSel(11)
 			d.SetCReg(0, true, ivg.RGBAColor(c16FlatTrans))
 			d.SetNReg(0, true, 0.5)
-			d.SetCReg(0, true, ivg.RGBAColor(c16Palette[7]))
+			d.SetCReg(0, true, ivg.RGBAColor(c16Palette[8]))
 			d.SetNReg(0, true, 1)
 		}
 		d.SetCSel(0)
@@ -281,7 +282,7 @@ func init() {
 		ID:    "C16",
 		Level: "exploration",
 		Rule: "engine P over (graphic x destination x rectangle x transformation): every one-path program over 10 shapes (L, l, H/V, Q+T, q+t, C+S, c+s, A, a, sub-paths via Y and y) x 6 fills (opaque via palette index, translucent via a rounding-sensitive blend, linear-pad gradient, radial-reflect gradient, initial content of a colour register, palette index and register reference with high bits set after the like-numbered register was overwritten) x sizes {1,7,64,512,513,600,40x100,100x40,511x3} (thorough: every n x n for n <= 17, 510..514 around the threshold incl. 511x513 / 513x511, 2x3, 3x514, 1024x16, 256x700, 700x256) x {RGBA, Alpha} x {Src, Over}, and every ordered pair of one-path programs (3600) at sizes 64 and 7, rendered with raster/vec. " +
-			"Relations, pixel buffers byte for byte: (a) rectangle at offset (7,9) inside a larger image with sentinel margin == image of its own, margin untouched; (b) viewBox, coordinates and radii x 2^k, gradient matrix linear part x 2^-k, k in {-5,-1,+2,+8} (thorough: 14 exponents in -8..8 for sizes <= 100) == original; (c) colours via palette index / register reference / blend == direct colours; (d) [P1,P2] with operator Src == P1 with Src then P2 with Over by a fresh Renderer; (r) relation (c) on a Renderer that rendered another graphic with the same palette before; (e) relation (c) between the two graphics in byte form (Encoder -> Decode -> Renderer). " +
+			"Relations, pixel buffers byte for byte: (a) rectangle at offset (7,9), and (o) at offset (0,0), inside a larger image with sentinel margin == image of its own, margin untouched; (b) viewBox, coordinates and radii x 2^k, gradient matrix linear part x 2^-k, k in {-5,-1,+2,+8} (thorough: 14 exponents in -8..8 for sizes <= 100) == original; (c) colours via palette index / register reference / blend == direct colours; (d) [P1,P2] with operator Src == P1 with Src then P2 with Over by a fresh Renderer; (r) relation (c) on a Renderer that rendered another graphic with the same palette before; (e) relation (c) between the two graphics in byte form (Encoder -> Decode -> Renderer). " +
 			"distinct = hash of the rendered pixels; non-trivial = render that produced at least one non-zero and one zero pixel",
 		Assumptions: []string{"golang.org/x/image/vector is a trusted dependency", "every float operation of the renderer commutes exactly with power-of-two scaling in the absence of overflow/underflow (the exponent set avoids both)"},
 		Units:       func(tier string) int { return n1 + n1 },
@@ -297,6 +298,7 @@ func init() {
 							}
 							big := sz[0] > 100
 							c16Check(w, &c16Case{Prog: p, W: sz[0], H: sz[1], Alpha: alpha, Op: op, Rel: "a"})
+							c16Check(w, &c16Case{Prog: p, W: sz[0], H: sz[1], Alpha: alpha, Op: op, Rel: "o"})
 							c16Check(w, &c16Case{Prog: p, W: sz[0], H: sz[1], Alpha: alpha, Op: op, Rel: "c"})
 							c16Check(w, &c16Case{Prog: p, W: sz[0], H: sz[1], Alpha: alpha, Op: op, Rel: "r"})
 							if sz[0] <= 100 {
@@ -375,8 +377,11 @@ func c16Check(w *mc.W, cs *c16Case) {
 		return -1
 	}
 	switch cs.Rel {
-	case "a":
-		const mx, my = 7, 9
+	case "a", "o":
+		mx, my := 7, 9
+		if cs.Rel == "o" {
+			mx, my = 0, 0 // the rectangle shares the image's origin but is narrower and shorter than it
+		}
 		bigR := image.Rect(0, 0, cs.W+mx+4, cs.H+my+4)
 		big, bigPix := c16NewImg(cs.Alpha, bigR)
 		for i := range *bigPix {
